@@ -89,6 +89,17 @@ func VerifC06_UpdateStrategy() {
 	}
 	if exists {
 		obs = verifApplied(withSystem(verifChild(named, "ns", "a", "", obsVal)), parent, uid)
+		if wanted && rt.Bool("third-party-changed-the-owned-field-after-it-was-applied") {
+			// the child was applied from the CURRENT desired state (the last-applied
+			// record says desVal) and then somebody else changed the owned field
+			rt.Cover("drift-by-third-party")
+			obs = verifApplied(withSystem(verifChild(named, "ns", "a", "", desVal)), parent, uid)
+			key := "data"
+			if named {
+				key = "spec"
+			}
+			obs.Object[key].(map[string]interface{})["k"] = obsVal
+		}
 		if rt.Bool("foreign-field") {
 			// someone else added a field and a label
 			key := "data"
